@@ -86,7 +86,10 @@ def collect(an, cm, roles, m):
             elif k == 'wr':
                 f = field_of(e[1])
                 if f and f != 'm_lock':
-                    accs.append(Access(f, 'C', 'W', held > 0, e[3], m, show(e[1]), in_loop))
+                    # assigning the container object itself replaces its structure (begin/end/size), not an element
+                    whole = (e[1][0] == 'fld' and e[1][1] == ('this',) and f in cm.field_by_name
+                             and typeclass(cm.field_by_name[f].type) in ('vector', 'list', 'umap', 'multimap', 'map', 'set', 'uset'))
+                    accs.append(Access(f, 'S' if whole else 'C', 'W', held > 0, e[3], m, show(e[1]), in_loop))
             elif k == 'q':
                 t = e[1]
                 f = field_of(t[2])
